@@ -29,19 +29,32 @@ def known_keys(case, out):
 def plan(seed: int, tier: str, n_files: int):
     pool = ampworld.make_pool(run_seed(seed, PROP, tier, 0, "pool"), n_files, {"max_top": 2, "max_alt": 2})
     jobs = []
-    for i, f in enumerate(pool):
-        rng = random.Random(run_seed(seed, PROP, tier, i, "order"))
-        order = list(range(6))
+    i = 0
+    k = 0
+    while i < len(pool):
+        rng = random.Random(run_seed(seed, PROP, tier, k, "order"))
+        k += 1
+        # a third of the sessions convert two files, their replicas interleaved: a replica of one file then has
+        # conversions of another file between it and its siblings
+        two = rng.random() < 0.34 and i + 1 < len(pool)
+        fl = pool[i : i + (2 if two else 1)]
+        i += len(fl)
+        if two:
+            order = [[fi, ri] for fi in range(2) for ri in rng.sample(range(6), 4)]
+        else:
+            order = [[0, ri] for ri in range(6)]
         rng.shuffle(order)
         r = rng.random()
+        n_reads = len(order)
         if r < 0.6:
             clock = []                      # the clock stands still: even the timestamp lines must agree
         elif r < 0.8:
-            clock = [rng.choice([0, 1.5, 3600.0]) for _ in range(6)]   # jumps forward between replicas
+            clock = [rng.choice([0, 1.5, 3600.0]) for _ in range(n_reads)]   # jumps forward between replicas
         else:
-            clock = [rng.choice([0, -86400.0, 0.25, -1.0]) for _ in range(6)]  # and backward
-        jobs.append({"engine": ENGINE, "func": FUNC, "limit_s": 900,
-                     "args": {"file": {"name": f["name"], "text": f["text"]}, "order": order, "clock": clock}, "tags": f["tags"]})
+            clock = [rng.choice([0, -86400.0, 0.25, -1.0]) for _ in range(n_reads)]  # and backward
+        tags = sorted({t for f in fl for t in f["tags"]} | ({"two_files_interleaved"} if two else set()))
+        jobs.append({"engine": ENGINE, "func": FUNC, "limit_s": 1500,
+                     "args": {"files": [{"name": f["name"], "text": f["text"]} for f in fl], "order": order, "clock": clock}, "tags": tags})
     return jobs
 
 
@@ -56,7 +69,7 @@ def main(tier: str, seed: int, opts) -> int:
     if cfg["shipped"]:
         with open(ampworld.SHIPPED_MODEL, encoding="utf-8") as f:
             jobs.append({"engine": ENGINE, "func": FUNC, "limit_s": 3000, "tags": ["shipped_model"],
-                         "args": {"file": {"name": "DtoKpipipi_v2.txt", "text": f.read()}, "order": [1, 4, 0, 3], "clock": []}})
+                         "args": {"files": [{"name": "DtoKpipipi_v2.txt", "text": f.read()}], "order": [[0, 1], [0, 4], [0, 0], [0, 3]], "clock": []}})
     log(f"[C19] VERIF_SEED={seed} tier={tier} files={len(jobs)}")
     tags_seen: dict = {}
     for j in jobs:
@@ -67,6 +80,7 @@ def main(tier: str, seed: int, opts) -> int:
         results = [unwrap(r, "C19 file") for r in pool.map(jobs, progress="C19")]
         stats: dict = {}
         abstract, nontrivial = set(), set()
+        files_total = 0
         ls_kinds, sf_kinds = set(), set()
         digest = hashlib.sha256()
         digest_n = hashlib.sha256()
@@ -79,6 +93,7 @@ def main(tier: str, seed: int, opts) -> int:
             abstract.add(ab)
             if len(r["abstract"]) > 2:
                 nontrivial.add(ab)
+            files_total += r["stats"].get("files_in_session", 1)
             ls_kinds.update(r.get("lineshape_kinds", []))
             sf_kinds.update(r.get("spin_kinds", []))
             if r["verdict"] == "violation":
@@ -97,14 +112,15 @@ def main(tier: str, seed: int, opts) -> int:
             src = os.environ.get("VERIF_SRC_ROOT", "/repo/src")
             for job in jobs[: cfg["subprocess"]]:
                 with tempfile.TemporaryDirectory(dir="/var/tmp") as d:
-                    path = os.path.join(d, job["args"]["file"]["name"])
+                    f0 = job["args"]["files"][0]
+                    path = os.path.join(d, f0["name"])
                     with open(path, "w", encoding="utf-8") as f:
-                        f.write(job["args"]["file"]["text"])
+                        f.write(f0["text"])
                     for lang, gen in (("cpp", "goofit"), ("py", "goofitpy")):
                         env = dict(os.environ, PYTHONPATH=src, PYTHONHASHSEED="0", NO_COLOR="1")
                         p = subprocess.run(["/venv/bin/python", "-m", "decaylanguage", "-G", gen, path], capture_output=True, text=True, env=env, timeout=900)
                         ref = unwrap(pool.call({"engine": ENGINE, "func": "run_ops", "limit_s": 900, "hashseed": 0,
-                                                "args": {"pool": [{"name": os.path.basename(path), "text": job["args"]["file"]["text"]}],
+                                                "args": {"pool": [{"name": os.path.basename(path), "text": f0["text"]}],
                                                          "ops": [{"op": "convert", "lang": lang, "file": os.path.basename(path), "ret": True}]}}))
                         a = ampworld.strip_timestamp(p.stdout).replace(path, "")
                         b = ampworld.strip_timestamp(ampworld.op_text(ref["obs"][0]) or "")
@@ -116,16 +132,17 @@ def main(tier: str, seed: int, opts) -> int:
                             rp = write_replay(PROP, f"{seed}-subprocess-{lang}", {"engine": ENGINE, "func": FUNC, "case": job["args"],
                                               "violation": {"signature": {"check": "command_line_equals_function"}, "detail": {"exit": p.returncode, "stderr": p.stderr[-500:]}}})
                             print(f"VIOLATION property={PROP} replay={rp}", flush=True)
-        samples = [{"file": jobs[0]["args"]["file"]["text"][:1500], "order": [list(ampworld.REPLICAS[i]) for i in jobs[0]["args"]["order"]],
-                    "clock_deltas": jobs[0]["args"]["clock"]}]
+        samples = [{"files": [f["text"][:1200] for f in jobs[0]["args"]["files"]],
+                    "order": [[fi, *ampworld.REPLICAS[i]] for fi, i in jobs[0]["args"]["order"]], "clock_deltas": jobs[0]["args"]["clock"]}]
     ev.cov.update({
         "evaluations": stats.get("conversions", 0),
         "distinct_nontrivial": len(nontrivial),
-        "rule": "one evaluation = one conversion call (entry point x language replica) of an option file inside a session of up to six "
-                "replicas run in seeded order under a simulated clock and stdout; distinct = distinct (file, replica order, clock jumps); "
-                "non-trivial = the session has at least two replicas (so an agreement is actually checked)",
+        "rule": "one evaluation = one conversion call (entry point x language replica) of an option file inside a session: six replicas of "
+                "one file, or four replicas each of two files interleaved, run in seeded order under a simulated clock and stdout; distinct = "
+                "distinct (files, replica order, clock jumps); non-trivial = the session has at least two replicas (so an agreement is actually checked)",
         "samples": samples,
-        "files": len(jobs),
+        "sessions": len(jobs),
+        "files": files_total,
         "file_feature_tags": tags_seen,
         "counters": stats,
         "lineshape_kinds_compared": sorted(ls_kinds),
@@ -149,5 +166,5 @@ def main(tier: str, seed: int, opts) -> int:
         "the C++ text is read by patterns of the generator's own templates; column padding and declaration order are ignored",
     ]
     ev.write()
-    log(f"[C19] files={len(jobs)} conversions={stats.get('conversions')} violations={len(rep.violations)} known={len(rep.known)}")
+    log(f"[C19] sessions={len(jobs)} files={files_total} conversions={stats.get('conversions')} violations={len(rep.violations)} known={len(rep.known)}")
     return rep.exit_code()
